@@ -172,7 +172,10 @@ where
         writer: &mut WriteConnection<<Listener::Socket as Socket>::WriteHalf>,
     ) -> crate::Result<Option<Service::ReplyStream>> {
         let mut stream = None;
+        let oneway = call.oneway();
         match self.service.handle(call).await {
+            // The client does not expect (and will not read) any reply to a oneway call.
+            _ if oneway => (),
             MethodReply::Single(params) => {
                 let reply = Reply::new(params).set_continues(Some(false));
                 writer.send_reply(&reply).await?
